@@ -18,6 +18,7 @@ typedef struct {
     const char *distpath;
     int verbose;
     long arg1, arg2;     /* driver-specific numbers */
+    int noise;           /* 1: run the noise thread (lec.c) alongside the workload */
 } mon_opts_t;
 extern mon_opts_t MO;
 
@@ -67,7 +68,8 @@ const char *g_describe(const void *addr, char *buf, size_t n);
 
 /* ---- forked cases: run fn(arg) in a child process (fault isolation without restarting the shard).
  * The child shares the log; its counters are lost, so fn reports through its return value (0..127). ---- */
-typedef struct { int status; int faulted; int sig; int nullpage; char site[96]; } mon_child_t;
+typedef struct { int status; int faulted; int sig; int nullpage; int phase; char site[96]; } mon_child_t;
+extern volatile int mon_child_phase;   /* set by the child's code; reported with a fault (e.g. 0 = during the injected call, 1 = afterwards) */
 int mon_fork_run(int (*fn)(void *), void *arg, mon_child_t *out);
 
 /* combinations: first/next k-subset of [0,n) in lexicographic order */
